@@ -3,4 +3,4 @@ Require Import AV.Bitv.Model.
 Extraction "Bitv/extracted/bitv_model.ml"
   bitvClassCreate bitvTest bitvSet bitvClear bitvSetAll bitvClearAll bitvCopy bitvNot bitvAnd bitvOr
   bitvMinus bitvEqual bitvMax bitvCount bitvCountTo bitvUnique1IndexInRange bitvFromInt bitvToInt
-  bitvResize bits wfvb.
+  bitvResize bits wfvb bitvToString bitvPrint.
